@@ -25,8 +25,8 @@ structure D5S (α : Type) (n : Nat) where
 def dopri5Kernel (atol rtol : Vec α n) : HKernel α n where
   S := D5S α n
   SA := D5S α n
-  trial f x h y k1 :=
-    let o := Gen.Dopri5.stages (f := f) (y := y) (h := h) (k1 := k1) (x := x)
+  trial f x h last xend y k1 :=
+    let o := Gen.Dopri5.stages (f := f) (y := y) (h := h) (k1 := k1) (x := x) (last := last) (xend := xend)
     let e := Gen.Dopri5.errk4 (k1 := k1) (k3 := o.k3) (k4 := o.k4) (k5 := o.k5) (k6 := o.k6) (k2 := o.k2) (h := h)
     (⟨o.y1, o.k2, o.k3, o.k4, o.k5, o.k6, e.k4⟩, o.calls, 6)
   err S y _h := Gen.Dopri5.errnorm (atol := atol) (rtol := rtol) (y := y) (y1 := S.y1) (k4 := S.ek4)
@@ -62,8 +62,8 @@ structure D8SA (α : Type) (n : Nat) where
 def dop853Kernel (atol rtol : Vec α n) : HKernel α n where
   S := D8S α n
   SA := D8SA α n
-  trial f x h y k1 :=
-    let o := Gen.Dop853.stages (f := f) (y := y) (h := h) (k1 := k1) (x := x)
+  trial f x h last xend y k1 :=
+    let o := Gen.Dop853.stages (f := f) (y := y) (h := h) (k1 := k1) (x := x) (last := last) (xend := xend)
     let c := Gen.Dop853.combine (k1 := k1) (k6 := o.k6) (k7 := o.k7) (k8 := o.k8) (k9 := o.k9) (k10 := o.k10) (k2 := o.k2)
       (k3 := o.k3) (y := y) (h := h) (k4 := o.k4)
     (⟨k1, o, c⟩, o.calls, 11)
